@@ -7,6 +7,7 @@ observation renderer and property monitors (C07, C08, C16, C17).
 -/
 -- SCENARIO cw1wl Cw1.wlScen
 -- SCENARIO cw1sk Cw1.skScen
+-- SCENARIO cw1skwide Cw1.skScen
 namespace CwPlus.Driver.Cw1
 open CwPlus Wire Driver
 open CwPlus.Cw1Whitelist (AddrArg CosmosMsg StakingKind DistrKind)
